@@ -180,6 +180,52 @@ def family_program(rng, counters):
     return [repr(paths)], tr, "", False, True
 
 
+def exotic_key_program(rng, counters):
+    """Item keys that are equal to an int without being one (2.0, numpy integers, bools): whatever the
+    library does with them, it must do the same in every build."""
+    import numpy as np
+    import xdeps
+    m = xdeps.Manager()
+    d = {"k": 3.0, "j": 1.5, "tab": {1: 0.0, 2: 0.0, 3: 0.0}, "lst": [0.0, 0.0, 0.0, 0.0], "vec": np.zeros(4)}
+    r = m.ref(d, "r")
+    forms = {1: [1, 1.0, np.int64(1), True, np.float64(1.0)], 2: [2, 2.0, np.int32(2), np.int64(2)],
+             3: [3, np.float64(3.0), np.int64(3), 3.0]}
+    # one key form per slot and program: two different forms of the same slot are two distinct refs writing one
+    # location (an ambiguous program whose outcome legitimately depends on the schedule)
+    form = {(c, k): rng.choice([x for x in v if not (c == "vec" and x is True)])     # vec[True] is a numpy mask: all slots
+            for c in ("tab", "lst", "vec") for k, v in forms.items()}
+    tr, ops = [], []
+    for _ in range(rng.randrange(4, 12)):
+        cont = rng.choice(["tab", "lst", "vec"])
+        key = form[(cont, rng.choice([1, 2, 3]))]
+        what = rng.choice(["expr", "expr", "value", "read"])
+        ops.append([cont, repr(key), what])
+        try:
+            if what == "expr":
+                r[cont][key] = r["k"] * rng.choice([2, 3]) + r["j"]
+            elif what == "value":
+                r[cont][key] = rng.choice([7.0, -1.0])
+            else:
+                tr.append(["read", canon(r[cont][key]._get_value())])
+            out = "ok"
+        except Exception as exc:
+            out = "E:" + type(exc).__name__
+        if out != "ok":
+            # the failing assignment itself is deterministic; everything after it is a partial update whose
+            # content legitimately depends on the schedule (a poisoned task stays registered): stop here
+            tr.append(["stopped-at-first-exception", out])
+            break
+        try:
+            m.set_value(r["k"], rng.choice([10.0, -2.0, 0.5]))
+        except Exception as exc:
+            tr.append(["stopped-at-first-exception-in-propagation"])
+            break
+        tr.append([out, sorted((repr(k), canon(v)) for k, v in d["tab"].items()), [canon(v) for v in d["lst"]],
+                   [canon(float(v)) for v in d["vec"]], sorted(map(list, m.dump())),
+                   [str(r[c][kk]._expr) for c in ("tab", "lst") for kk in (1, 2, 3)]])
+    return [ops], tr, "", False, True
+
+
 def run_shard(spec):
     rng = random.Random("C20:%s:corpus" % spec["seed"])      # identical corpus in every configuration
     mgrmon.install_run_events()
@@ -198,7 +244,8 @@ def run_shard(spec):
     n_hist, n_terms, n_fam = spec["histories"], spec["terms"], spec["families"]
     if spec.get("replay"):
         n_hist, n_terms, n_fam = 60, 200, 1
-    for kind, n, fn in (("history", n_hist, history_program), ("term", n_terms, term_program), ("family", n_fam, family_program)):
+    for kind, n, fn in (("history", n_hist, history_program), ("term", n_terms, term_program), ("family", n_fam, family_program),
+                        ("exotic-keys", max(20, n_hist // 4), exotic_key_program)):
         for i in range(n):
             sub = random.Random("C20:%s:%s:%d" % (spec["seed"], kind, i))     # per-program stream: robust to skips
             res = fn(sub, counters)
